@@ -28,7 +28,14 @@ impl ParsedSourceFile {
             path.display().to_string()
         };
         let source = read_source_file(&path, workspace)?;
-        let parsed = syn::parse_str(&source).unwrap();
+        // `syn` doesn't accept everything that `rustc` accepts (e.g. nightly-only syntax).
+        // The parsed file is only used to look for the spans we want to label:
+        // if it isn't available, the diagnostic is reported without labels.
+        let parsed = syn::parse_file(&source).unwrap_or_else(|_| syn::File {
+            shebang: None,
+            attrs: Vec::new(),
+            items: Vec::new(),
+        });
         Ok(Self {
             display_path,
             contents: source,
